@@ -454,8 +454,25 @@ where
     PropOutcome { stats, failures }
 }
 
-fn guarded<T, F: Fn(&T) -> Verdict>(oracle: &F, v: &T) -> Verdict {
-    match std::panic::catch_unwind(std::panic::AssertUnwindSafe(|| oracle(v))) {
+thread_local! {
+    pub static IN_GUARD: std::cell::Cell<bool> = const { std::cell::Cell::new(false) };
+}
+
+/// Installs a panic hook that stays quiet for panics caught per case and prints everything else.
+pub fn install_panic_hook() {
+    let default = std::panic::take_hook();
+    std::panic::set_hook(Box::new(move |info| {
+        if !IN_GUARD.with(|g| g.get()) || std::env::var("VERIF_DEBUG").is_ok() {
+            default(info);
+        }
+    }));
+}
+
+pub fn guarded<T, F: Fn(&T) -> Verdict>(oracle: &F, v: &T) -> Verdict {
+    let prev = IN_GUARD.with(|g| g.replace(true));
+    let r = std::panic::catch_unwind(std::panic::AssertUnwindSafe(|| oracle(v)));
+    IN_GUARD.with(|g| g.set(prev));
+    match r {
         Ok(r) => r,
         Err(p) => {
             let msg = if let Some(s) = p.downcast_ref::<String>() {
